@@ -17,7 +17,7 @@ CLAIMED = {
             "trusts the generator's spec dictionaries and mon/ref/mdp.Arr; known findings C06 (ii)/(iii) are mechanism-keyed in known_findings.json", "§4 C06"),
     "C03": ("runtime monitoring: msdm's own LAOStarEventListener hook asserts the upper-bound invariant online on every node at every main-loop iteration; boundary recorder on the result; oracle = reference V* + exact evaluation of the returned policy walked over its own reachable set",
             "Held-on-K-executions over generated MDPs x admissible heuristics x seeds x ordering flags. Exploration: all-inputs/all-histories property, only sampled runs are observable.",
-            "trusts mon/ref/mdp.py; MDPs closed and proper over the whole list; flagged absorbing states at gamma=1", "§4 C03"),
+            "trusts mon/ref/mdp.py; MDPs closed and proper over the whole list; flagged absorbing states at gamma=1; known finding C03-inner-policy-iteration-cycles-between-tied-actions-at-large-magnitudes is keyed on the call site and facts computed from the reference solution", "§4 C03"),
     "C04": ("runtime monitoring: msdm's own LRTDPEventListener hook checks the whole value table against V* after every time step and trial (online upper-bound invariant); boundary recorder; oracle = reference V*, expected steps and exact return of the returned policy",
             "Held-on-K-executions (sampled trial histories = seeds). Exploration: the property quantifies over all histories; termination is restated as bounded progress under a watchdog (inconclusive, never a violation).",
             "trusts mon/ref/mdp.py; res.converged is not consulted", "§4 C04"),
@@ -65,7 +65,7 @@ CLAIMED = {
             "trusts mon/ref/pomdp.py (expectimax on unnormalised beliefs) and mon/ref/mdp.py; slack uses k observed at run time", "§4 C08"),
     "C09": ("runtime monitoring: boundary recorder on stochastic_fsc_policy_evaluation_exact; the same function wrapped as seen from the bounded-policy-iteration module records every value table inside one train_on (monotonicity); StochasticFiniteStateController driven along all action/observation histories up to length 3 and its agent state compared with the hidden-node forward algorithm; reference cross-product solve with absorbing states terminal; source-free probe on scipy.optimize.linprog during bounded policy iteration (facts for exceptions raised by its own assertions)",
             "Held-on-K-executions over generated POMDPs, controllers, histories and learner seeds. Exploration: all-inputs / all-histories property.",
-            "trusts mon/ref/fsc.py and mon/ref/pomdp.py; known findings C09-fsc-evaluation-ignores-absorbing-states and C09-bpi-accepts-lp-solutions-at-solver-noise-level are mechanism-keyed", "§4 C09"),
+            "trusts mon/ref/fsc.py and mon/ref/pomdp.py; known findings C09-fsc-evaluation-ignores-absorbing-states, C09-bpi-accepts-lp-solutions-at-solver-noise-level and C09-bpi-does-not-check-the-lp-solver's-status are mechanism-keyed", "§4 C09"),
 }
 
 PENDING_REASON = "check not built yet in this round (design in DESIGN.md §4); not claimed until its monitor exists and is silent on the unchanged tree"
